@@ -29,8 +29,9 @@ those of the functions included (what `Model.graphs()` / `graph.all_nodes()` plu
 deserializer's resolution pass walk; the harness compares them as sets with the real enumeration
 after every operation).
 
-What is NOT represented (the harness keeps its inputs inside this fragment and says so):
-graph / function outputs, function attributes, call nodes and inlining, hand-built
+What is NOT represented here (the harness keeps its inputs inside this fragment and says so):
+graph / function outputs and call nodes (they exist only in the side table of the model of `InlinePass`,
+`Model/DeviceInl.lean`), function attributes, hand-built
 `NodeDeviceConfiguration`/`ShardingSpec` records (`value=None`, `configuration=None`, several
 `simple_shardings` per axis, `index_to_device_group_map`) — every record is one that `shard` /
 `set_pipeline_stage` can produce —, node/value attributes other than name and shape, and the
